@@ -1,6 +1,7 @@
 import FranzVerif.Proof.C16b
 import FranzVerif.Proof.C16c
 import FranzVerif.Proof.C16e
+import FranzVerif.Proof.C16h
 import FranzVerif.Proof.C15f
 import FranzVerif.Gen.Schema
 /-! C16 — protocol decoders are total and bounded.
@@ -43,6 +44,23 @@ theorem alloc_requests_bounded (l : Int) (cap : Nat) (m : String) (h : goMake l 
   · split at h
     · right; assumption
     · cases h
+
+/-- **Memory within a constant factor of the input.** The number of nodes of a successfully decoded value (every array slot,
+every field, every unknown tag the decoder materialised) is at most `weight t · (|input| + 1)`, where `weight t` depends on the
+schema type only. It needs the schema to be well formed at the version (`Props.C15.schema_ok`: every array element occupies at
+least one byte) — without that, nested arrays of zero-width elements would allow a quadratic blow-up that `Reader.ArrayLen`'s
+"length ≤ remaining bytes" check alone does not prevent. -/
+theorem decoded_size_bounded (t : Ty) (c : Cfg) (flex : Bool) (src : Bytes) (v : Val) (r : Bytes)
+    (hs : schemaOK c.ver t = true) (h : dec c flex t src = .ok v r) :
+    Proof.C16.nodes v ≤ Proof.C16.weight t * (src.length + 1) := by
+  have c1 := (Proof.C16.consT t c flex src).weaken (Nat.zero_le _) v r h
+  have := Proof.C16.sized t c flex src v r hs h (src.length - r.length) (by omega)
+  exact Nat.le_trans this (Nat.mul_le_mul_left _ (by omega))
+
+/-- … and a successful decode consumed at least the minimal width of the type: no element of an array is free. -/
+theorem decode_consumes_min_width (t : Ty) (c : Cfg) (flex : Bool) (src : Bytes) (v : Val) (r : Bytes)
+    (h : dec c flex t src = .ok v r) : r.length + minW c.ver t ≤ src.length :=
+  Proof.C16.consT t c flex src v r h
 
 /-! ### Re-encoding a decoded value -/
 
